@@ -38,6 +38,8 @@ def run(cx):
         if res.get("k") != "done":
             raise vlib.Inconclusive("long history driver failed: %s" % str(res)[:200])
         ps = res["pieces"]
+        if any("context deadline exceeded" in str(p_.get("msg", "")) for p_ in ps):
+            raise vlib.Inconclusive("a long history ran out of time (the history's context ended): the machine is too loaded to decide")
         last = ps[-1]
         exp = npieces if r["id"] == 0 else 0
         bad = [i for i, p in enumerate(ps) if p.get("k") in ("raise", "gopanic") and "[][3]" not in r["pieces"][i]]
